@@ -45,6 +45,18 @@ def validate_evidence(path):
         return
 
 
+def replay_isolated(drv, case):
+    """run the explorer-free oracle for one case in a forked child (a case may crash the interpreter)"""
+    from mc import par
+    r = par._run_single_isolated(drv.check_case, case)
+    if isinstance(r, par.Crash):
+        return [("crash:%r" % r, "the interpreter was killed: %r" % r)]
+    if isinstance(r, tuple) and len(r) == 3 and r[0] == "__harness_error__":
+        sys.stderr.write(r[1])
+        return "__error__"
+    return r
+
+
 def main():
     ap = argparse.ArgumentParser()
     ap.add_argument("prop", nargs="?")
@@ -83,7 +95,9 @@ def main():
     if args.replay:
         with open(args.replay) as f:
             rec = json.load(f)
-        obs = [drv.check_case(rec["case"]) for _ in range(2)]
+        obs = [replay_isolated(drv, rec["case"]) for _ in range(2)]
+        if "__error__" in obs:
+            return 2
         if json.dumps(outcome.jsonable(obs[0]), sort_keys=True) != json.dumps(outcome.jsonable(obs[1]), sort_keys=True):
             print("replay is not deterministic", obs)
             return 2
@@ -121,11 +135,8 @@ def main():
     for k in sorted(fresh):
         v = fresh[k]
         # a violation is only believed if the explorer-free oracle reproduces it, twice, identically
-        try:
-            o1 = drv.check_case(v.case)
-            o2 = drv.check_case(v.case)
-        except Exception:
-            traceback.print_exc()
+        o1, o2 = replay_isolated(drv, v.case), replay_isolated(drv, v.case)
+        if o1 == "__error__" or o2 == "__error__":
             print("HARNESS ERROR while replaying", k)
             return 2
         if not o1 or json.dumps(outcome.jsonable(o1), sort_keys=True) != json.dumps(outcome.jsonable(o2), sort_keys=True):
